@@ -167,7 +167,7 @@ func optSeq(seq uint64, err error) any {
 }
 
 func famC15(t *testing.T, r *hx.Rng, o *hx.Out) {
-	n := hx.N(50, 1500)
+	n := hx.N(50, 800)
 
 	// strings.TrimSpace(s) == "" as used by the validators
 	for i := 0; i < n; i++ {
@@ -310,7 +310,7 @@ func emitConnParse(o *hx.Out, id, tag string) {
 // famC15Counters drives the real keepers' Generate*Identifier on one shared IBC store. Each creation attempt runs
 // on a cached context which is written back (the transaction commits) or dropped (the handler failed later).
 func famC15Counters(t *testing.T, r *hx.Rng, o *hx.Out) {
-	hists := hx.N(40, 400)
+	hists := hx.N(40, 300)
 	for h := 0; h < hists; h++ {
 		key := storetypes.NewKVStoreKey("ibc")
 		tctx := testutil.DefaultContextWithDB(t, key, storetypes.NewTransientStoreKey("transient_test"))
